@@ -70,7 +70,9 @@ def build_mm(bench: str) -> Any:
 
         db = parse_database(TWO_VARIABLES)
     else:
-        db = load_database(f'/repo/generation/mm-benchmarks/{bench}.mm', include_proof=True)
+        import os
+
+        db = load_database(f"{os.environ.get('PI2_REPO', '/repo')}/generation/mm-benchmarks/{bench}.mm", include_proof=True)
     converter = MetamathConverter(db)
     axioms = []
     for n in converter.exported_axioms:
